@@ -1,7 +1,8 @@
 ID = "C07"
 GO_CMD = "pkgs"
 GEN = ["Gen/GenPkg.v"]
-DRIVE_ARGS = ["-prop", "C07"]
+GROUPS = "core,b2"      # generator groups whose models are integrated in Pkg/All.v
+DRIVE_ARGS = ["-prop", "C07", "-groups", GROUPS]
 MODEL_VO = ["theories/Pkg/All.vo"]
 PROOF_VO = ["theories/C07/Props.vo"]
 PROPS_V = "theories/C07/Props.v"
